@@ -122,7 +122,7 @@ theorem nibble_good : nibble.Good := by
 
 theorem nibble_safe : nibble.Safe := by
   constructor
-  intro bs x hx
+  intro bs _ x hx
   simp only [nibble, List.mem_flatMap] at hx
   obtain ⟨b, _, hx⟩ := hx
   simp at hx
